@@ -437,6 +437,7 @@ def engine(pid, tier, seed, verdict, ev, only):
     progs += [("grammar-d%d" % depth, s) for s in corpus.enumerate_programs(depth)]
     progs += [("scopes-d%d" % depth, s) for s in corpus.scope_programs(1 if tier == "quick" else 3)]
     progs += [("seeded-%d" % seed, s) for s in corpus.seeded_programs(seed, 300 if tier == "quick" else 6000)]
+    progs += [("seeded-scopes-%d" % seed, s) for s in corpus.seeded_scope_programs(seed, 1500 if tier == "quick" else 20000)]
     # programs listed in known findings / replays are always part of the corpus
     res, rc = run_driver(binary, [p for _, p in progs], "%s-%s" % (pid, tier))
     if len(res) < len(progs) * 0.9:
